@@ -17,20 +17,22 @@ import (
 )
 
 type Config struct {
-	MaxSteps   int
-	MaxDepth   int
-	Trace      bool
-	MapOrder   string
-	Solver     string
-	TimeoutMs  int
-	Workers    int
-	MaxPaths   int
-	MaxViol    int
-	ResetEvery int
-	Params     map[string]int64
-	Concrete   map[string]replayInput // selftest: inputs come from here
-	Known      map[string]bool
-	Stubs      map[string]*ssa.Function // full name of a replaced function -> harness function (DESIGN 3.6(6))
+	MaxSteps    int
+	MaxDepth    int
+	Trace       bool
+	MapOrder    string
+	Solver      string
+	TimeoutMs   int
+	Workers     int
+	MaxPaths    int
+	MaxViol     int
+	ResetEvery  int
+	Params      map[string]int64
+	Concrete    map[string]replayInput // selftest: inputs come from here
+	Known       map[string]bool
+	CrossSolver string // thorough tier: re-discharge solver-decided obligations with this solver, one-shot
+	CrossMax    int
+	Stubs       map[string]*ssa.Function // full name of a replaced function -> harness function (DESIGN 3.6(6))
 }
 
 // Dec is one recorded decision; K carries the candidate value of a concretisation so
@@ -77,23 +79,24 @@ type Explorer struct {
 	harness  *ssa.Function
 	initPkgs []*ssa.Package
 
-	mu        sync.Mutex
-	queue     [][]Dec
-	idle      int
-	done      bool
-	stats     Stats
-	funcs     map[string]bool
-	stubs     map[string]int
-	markers   map[string]int
-	viols     []Violation
-	violSeen  map[string]bool
-	incon     []string
-	inconSeen map[string]bool
-	samples   []Sample
-	bounds    map[string]int64
-	observes  []string
-	rtypePtrT types.Type
-	startTime time.Time
+	mu                                  sync.Mutex
+	queue                               [][]Dec
+	idle                                int
+	done                                bool
+	stats                               Stats
+	funcs                               map[string]bool
+	stubs                               map[string]int
+	markers                             map[string]int
+	viols                               []Violation
+	violSeen                            map[string]bool
+	incon                               []string
+	inconSeen                           map[string]bool
+	samples                             []Sample
+	bounds                              map[string]int64
+	observes                            []string
+	rtypePtrT                           types.Type
+	crossDone, crossAgree, crossUnknown int
+	startTime                           time.Time
 }
 
 type Stats struct {
@@ -129,6 +132,7 @@ type Engine struct {
 	trace       []Dec
 	frames      int // solver frames currently pushed (== number of trace entries asserted)
 	frameLits   []bool
+	frameTerms  []*Term
 	steps       int
 	depth       int
 	goroutines  []deferred
@@ -193,6 +197,7 @@ func (e *Engine) reset() {
 	e.inited = false
 	e.frames = 0
 	e.frameLits = nil
+	e.frameTerms = nil
 	e.pathsSince = 0
 }
 
@@ -200,13 +205,45 @@ func (e *Engine) reset() {
 
 func (e *Engine) pushLit(c *Term, val bool) {
 	e.solver.Push()
-	if val {
-		e.solver.Assert(c)
-	} else {
-		e.solver.Assert(e.tt.Not(c))
+	lit := c
+	if !val {
+		lit = e.tt.Not(c)
 	}
+	e.solver.Assert(lit)
 	e.frames++
 	e.frameLits = append(e.frameLits, val)
+	e.frameTerms = append(e.frameTerms, lit)
+}
+
+// crossCheck re-discharges an obligation the main solver found unsat with a second solver, one-shot,
+// from a self-contained script (DESIGN 3.10). A disagreement or an inconclusive answer is reported.
+func (e *Engine) crossCheck(neg *Term, label string) {
+	if e.cfg.CrossSolver == "" {
+		return
+	}
+	e.x.mu.Lock()
+	if e.x.crossDone >= e.cfg.CrossMax {
+		e.x.mu.Unlock()
+		return
+	}
+	e.x.crossDone++
+	e.x.mu.Unlock()
+	asserts := append(append([]*Term{}, e.frameTerms[:e.frames]...), neg)
+	r := OneShot(e.cfg.CrossSolver, Script(e.tt, e.solver.preamble, asserts), e.cfg.TimeoutMs)
+	e.x.mu.Lock()
+	defer e.x.mu.Unlock()
+	switch r {
+	case RUnsat:
+		e.x.crossAgree++
+	case RSat:
+		msg := "second solver " + e.cfg.CrossSolver + " finds a counterexample where " + e.cfg.Solver + " said unsat: obligation " + label
+		if !e.x.inconSeen[msg] {
+			e.x.inconSeen[msg] = true
+			e.x.incon = append(e.x.incon, msg)
+		}
+	default:
+		e.x.crossUnknown++
+	}
 }
 
 func (e *Engine) popTo(n int) {
@@ -215,6 +252,7 @@ func (e *Engine) popTo(n int) {
 		e.frames--
 	}
 	e.frameLits = e.frameLits[:e.frames]
+	e.frameTerms = e.frameTerms[:e.frames]
 }
 
 // decide returns the truth value of c on this path, forking when both are feasible.
@@ -504,6 +542,7 @@ func (e *Engine) assertObl(c *Term, label string) {
 	switch r {
 	case RUnsat:
 		e.solver.Pop()
+		e.crossCheck(neg, label)
 		e.discharged++
 		// c is implied by the path condition: no frame needed, but keep trace aligned
 		e.trace = append(e.trace, Dec{V: true})
@@ -938,6 +977,10 @@ type Result struct {
 	Observed     []string         `json:"observed,omitempty"`
 	WallS        float64          `json:"wall_s"`
 	Exhaustive   bool             `json:"exhaustive"`
+	CrossChecked int              `json:"cross_checked"`
+	CrossAgree   int              `json:"cross_agree"`
+	CrossUnknown int              `json:"cross_unknown"`
+	CrossSolver  string           `json:"cross_solver,omitempty"`
 }
 
 func (x *Explorer) Run() (*Result, error) {
@@ -983,6 +1026,7 @@ func (x *Explorer) Run() (*Result, error) {
 		Stats: x.stats, Stubs: x.stubs, Markers: x.markers, Violations: x.viols, Inconclusive: x.incon,
 		Samples: x.samples, Bounds: x.bounds, Observed: x.observes, WallS: time.Since(x.startTime).Seconds(),
 	}
+	res.CrossChecked, res.CrossAgree, res.CrossUnknown, res.CrossSolver = x.crossDone, x.crossAgree, x.crossUnknown, x.cfg.CrossSolver
 	for f := range x.funcs {
 		res.Functions = append(res.Functions, f)
 	}
